@@ -275,7 +275,81 @@ fn check_bool_numeric(ctx: &mut Ctx, lit: &str) {
     }
 }
 
+/// A handler reading a long list of float / boolean parameters from one unit (a waveform download): every element converts
+/// to its own value wherever it stands in the list - positions around the limits of 8-, 12- and 16-bit counters.
+fn long_lists(cfg: &Cfg, rep: &mut Report) {
+    if cfg.tiny {
+        return;
+    }
+    run_cases(cfg, "long-lists", cfg.n(1, 400, 4_000), rep, |rng, ctx| {
+        bump(ctx, 1);
+        let n = match rng.usize(8) {
+            0 | 1 => 250 + rng.usize(12),
+            2 => 4090 + rng.usize(12),
+            3 => 65_530 + rng.usize(12),
+            4 => 300 + rng.usize(700),
+            _ => 2 + rng.usize(300),
+        };
+        let as_bool = rng.chance(1, 4);
+        let mut text: Vec<u8> = Vec::new();
+        let mut want_f: Vec<f64> = Vec::with_capacity(n);
+        for i in 0..n {
+            if i > 0 {
+                text.extend_from_slice(*rng.pick(&[&b","[..], b",", b", ", b" ,"]));
+            }
+            // values exactly representable, so that the expected value needs no rounding argument: k/8 and small exponents
+            let k = rng.range(-4000, 4000);
+            let v = k as f64 / 8.0;
+            let lit = match rng.usize(3) {
+                0 => format!("{}", v),
+                1 => format!("{}E-3", k * 125),
+                _ => format!("{:+}", v),
+            };
+            text.extend_from_slice(lit.as_bytes());
+            want_f.push(v);
+        }
+        ctx.nontrivial(hash_bytes(&text));
+        ctx.count(&format!("long-lists.elements.{}", if n < 250 { "<250" } else if n < 262 { "~2^8" } else if n < 1100 { "300-1000" } else if n < 5000 { "~2^12" } else { "~2^16" }));
+        let mut toks = Tokenizer::new_params(&text).peekable();
+        let mut p = scpi::parser::parameters::Parameters::with(&mut toks);
+        // first element required, the rest optional until exhausted (the idiom for a list of unknown length)
+        let mut i = 0usize;
+        loop {
+            let got: Result<Option<f64>, scpi::error::Error> = if as_bool {
+                let r: Result<Option<bool>, _> = if i == 0 { p.next_data::<bool>().map(Some) } else { p.next_optional_data::<bool>() };
+                r.map(|o| o.map(|b| if b { 1.0 } else { 0.0 }))
+            } else if i == 0 {
+                p.next_data::<f64>().map(Some)
+            } else {
+                p.next_optional_data::<f64>()
+            };
+            match got {
+                Ok(None) => break,
+                Ok(Some(v)) => {
+                    let w = if i < n { want_f[i] } else { f64::NAN };
+                    let w = if as_bool { if w.round() != 0.0 { 1.0 } else { 0.0 } } else { w };
+                    if i >= n || v.to_bits() != w.to_bits() && !(v == 0.0 && w == 0.0 && !as_bool && v.is_sign_negative() == w.is_sign_negative()) {
+                        ctx.violation("C08:long-list:element-converts-to-another-value", jobj(&[("elements", n.to_string()), ("position", i.to_string()), ("kind", jstr(if as_bool { "bool" } else { "f64" })), ("observed", jstr(&format!("{:?}", v))), ("expected", jstr(&format!("{:?}", w)))]));
+                        return;
+                    }
+                    i += 1;
+                }
+                Err(e) => {
+                    ctx.violation("C08:long-list:element-rejected", jobj(&[("elements", n.to_string()), ("position", i.to_string()), ("kind", jstr(if as_bool { "bool" } else { "f64" })), ("error", e.get_code().to_string())]));
+                    return;
+                }
+            }
+        }
+        if i != n {
+            ctx.violation("C08:long-list:elements-missing", jobj(&[("elements", n.to_string()), ("obtained", i.to_string())]));
+            return;
+        }
+        ctx.add("long-lists.elements-converted", n as u64);
+    });
+}
+
 pub fn run(cfg: &Cfg, rep: &mut Report) {
+    long_lists(cfg, rep);
     let n = cfg.n(100, 7_500_000, 800_000_000);
     run_cases(cfg, "floats", n, rep, |rng, ctx| {
         let lit = float_literal(rng);
